@@ -354,22 +354,25 @@ D7(z) ==
                         q \in {v \in ListKinds \X SepKinds \X AdjKinds \X SepKinds :
                                  /\ PairOK(c, v[1], v[2], v[3]) /\ PairOK(c, v[3], v[4], v[1])
                                  /\ c # "top" => {v[2], v[4]} \subseteq {"none", "nl"}} } : c \in {"top", "cell", "div"} }
-  ELSE { AdjDoc("top:" \o q[2], "top", Pair(q[1], q[2], q[3])) :
-           q \in {v \in AdjKinds \X SepKinds \X AdjKinds :
+  ELSE \* quick: the separators that give different TREES (none, one, two blank lines) everywhere; the spellings that give
+       \* the tree of `nl` / `none` again (line of blanks, comment lines) only between two lists of the same kind
+       { AdjDoc("top:" \o q[2], "top", Pair(q[1], q[2], q[3])) :
+           q \in {v \in AdjKinds \X {"none", "nl", "nl2"} \X AdjKinds :
                     PairOK("top", v[1], v[2], v[3]) /\ ({v[1], v[3]} \cap ListKinds = {} => v[2] \in {"none", "nl"})} }
+       \cup { AdjDoc("top:" \o q[2], "top", Pair(q[1], q[2], q[1])) : q \in ListKinds \X {"blanks", "cmt", "cmt0"} }
        \cup { AdjDoc(c \o ":" \o q[2], c, Pair(q[1], q[2], q[3])) :
-                c \in {"cell", "div"}, q \in ListQ \X {"none", "nl", "nl2", "cmt"} \X ListQ }
+                c \in {"cell", "div"}, q \in ListQ \X {"none", "nl", "nl2"} \X ListQ }
        \cup { AdjDoc(c \o ":" \o q[2], c, Pair(q[1], q[2], q[3])) :
                 c \in {"cell", "div"},
-                q \in {v \in (ListQ \cup {"table", "rule", "para", "div"}) \X {"none", "nl"} \X (ListQ \cup {"table", "rule", "para", "div"}) :
+                q \in {v \in (ListQ \cup {"table", "rule", "para", "div"}) \X {"nl"} \X (ListQ \cup {"table", "rule", "para", "div"}) :
                          Cardinality({v[1], v[3]} \cap ListQ) = 1} }
        \cup { AdjDoc("sec:nl", "sec", Pair(k1, "nl", k2)) : k1 \in ListQ, k2 \in ListQ }
        \cup { AdjDoc("item:" \o q[2], "item", Pair(q[1], q[2], q[3])) :
                 q \in (ListKinds \X {"none"} \X ListKinds) \cup (ListQ \X {"nl"} \X ListQ) }
-       \cup { AdjDoc("top:" \o q[2] \o "+" \o q[4], "top", Triple(q[1], q[2], q[3], q[4], q[1])) :
-                q \in {v \in ListQ \X {"none", "nl"} \X AdjKinds \X {"none", "nl"} : v[3] \in BlkKinds \/ v[3] = v[1]} }
+       \cup { AdjDoc("top:" \o q[2] \o "+" \o q[2], "top", Triple(q[1], q[2], q[3], q[2], q[1])) :
+                q \in {v \in ListQ \X {"none", "nl"} \X AdjKinds : v[3] \in BlkKinds \/ v[3] = v[1]} }
        \cup { AdjDoc("top:" \o q[2] \o "+" \o q[3], "top", Triple(q[1], q[2], q[1], q[3], q[1])) :
-                q \in ListKinds \X {"nl", "nl2", "cmt"} \X {"nl", "nl2", "cmt"} }
+                q \in ListKinds \X {"nl", "nl2"} \X {"nl", "nl2"} }
 AllDocs(z) == D1 \cup D2 \cup D3 \cup D4 \cup D5 \cup D6 \cup D7(z)
 
 (* ---------------- generator ---------------- *)
